@@ -132,7 +132,7 @@ def shard(ctx, shard_no, nshards, n_random, stride):
     with ctx.timed('random'):
         core.run_hypothesis(ctx, 'random', from_tape(sem.random_bool_case), body, n_random)
     with ctx.timed('small'):
-        for name, inp in sem.small_cases(ctx.seed, stride, shard_no, nshards):
+        for name, inp in sem.small_cases(ctx.seed, stride, shard_no, nshards, quant_stride=max(1, stride // 8)):
             try:
                 r = check_case(inp, limit=limit, stats=stats)
             except Violation as v:
